@@ -296,7 +296,10 @@ func aesClass(pw pwCase, selfOK bool) string {
 		}
 		return ""
 	}
-	if pw.ok && (err != nil || string(pp) != pw.sasl) {
+	// the known divergence of the PRECIS identifier profile from SASLprep: U+0020 is disallowed, and so are the
+	// characters SASLprep maps (to a space or to nothing) before normalising.  Anything else is not this finding.
+	divergent := strings.Contains(pw.raw, " ") || pw.sasl != nfkc(pw.raw)
+	if pw.ok && divergent && (err != nil || string(pp) != pw.sasl) {
 		return "aes256-password-prep-not-saslprep"
 	}
 	return ""
@@ -716,5 +719,6 @@ func main() {
 	partRC4(r)
 	partAES(r)
 	partAESModel(r)
+	partLongPW(r)
 	partE2E(r)
 }
